@@ -60,8 +60,40 @@ _CHECK = None
 _DEBUG = bool(os.environ.get("VERIF_DEBUG"))
 
 
+def _self_forking(chk):
+    """True when chk.run already executes every run in a fork of a history-free process."""
+    return bool(getattr(chk, "RUNS_FORK_THEMSELVES", False))
+
+
+_HISTORY = []   # this worker's process history: [first run index, count] of every chunk it has executed
+
+
 def _worker_chunk(args):
-    (verif_seed, tier, start, count, want_digests, want_samples) = args
+    """A chunk of consecutive runs, executed in this (long-lived) worker.  The worker records which
+    chunks it has executed; a violation carries that record, so that a violation which only shows
+    after earlier runs in the same process (state the code under test keeps at module level) can be
+    replayed: the earlier runs become the 'prelude' of its replay file and are minimised like any
+    other part of the history.  Forking one process per chunk would make the history shorter but
+    costs 3x throughput in this sandbox (page-fault and fork costs); VERIF_CHUNK_FORK=1 selects it."""
+    chk = _CHECK
+    if os.environ.get("VERIF_CHUNK_FORK") and not _self_forking(chk):
+        from .fork import run_in_fork
+        count = args[3]
+        try:
+            return run_in_fork(_chunk_body, args + ([],),
+                               timeout_s=int(RUN_WALL_CAP_S + count * getattr(chk, 'RUN_S', 2)) + 30)
+        except RuntimeError as e:
+            return {"runs": 0, "stats": {}, "nontrivial": set(), "isigs": set(), "states": set(),
+                    "violations": [], "digests": {}, "samples": [], "sim_time": 0.0, "steps": 0,
+                    "harness": [{"run_index": args[2], "run_seed": None,
+                                 "error": "HARNESS-TIMEOUT/CRASH in chunk starting at run %d: %s" % (args[2], e)}]}
+    hist = [list(h) for h in _HISTORY]
+    _HISTORY.append([args[2], args[3]])
+    return _chunk_body(args + (hist,))
+
+
+def _chunk_body(args):
+    (verif_seed, tier, start, count, want_digests, want_samples, worker_hist) = args
     chk = _CHECK
     faulthandler.dump_traceback_later(RUN_WALL_CAP_S + count * getattr(chk, 'RUN_S', 2), exit=True)
     agg = {
@@ -102,6 +134,7 @@ def _worker_chunk(args):
         for v in res["violations"]:
             if len(agg["violations"]) < 40:
                 agg["violations"].append(_plain({"run_index": idx, "run_seed": run_seed,
+                                                 "chunk_start": start, "worker_history": worker_hist,
                                                  "scenario": sc, **v}))
     faulthandler.cancel_dump_traceback_later()
     return agg
@@ -123,41 +156,114 @@ def _plain(obj):
     return conv(obj)
 
 
-def _fails_with(chk, sc, sig):
+def _trial_here(chk, prelude, sc, sig):
+    for p in prelude:
+        try:
+            chk.run(p)
+        except BaseException:  # noqa: BLE001 - a prelude run only contributes process history
+            pass
     try:
         res = chk.run(sc)
-    except BaseException:
+    except BaseException:  # noqa: BLE001
         return None
     for v in res["violations"]:
         if v["sig"] == sig:
-            return (v, res)
+            return _plain((v, {"digest": res["digest"]}))
     return None
 
 
-def _worker_minimise(args):
-    (sc, sig, budget_s) = args
-    chk = _CHECK
-    faulthandler.dump_traceback_later(budget_s * 3 + RUN_WALL_CAP_S, exit=True)
-    t0 = time.time()
-    cur = sc
+def _fails_with(chk, sc, sig, prelude=()):
+    """Does `sc` (after the runs in `prelude`, in one fresh process) violate with signature sig?"""
+    if _self_forking(chk) or os.environ.get("VERIF_NOFORK"):
+        return _trial_here(chk, prelude, sc, sig)
+    from .fork import run_in_fork
+    try:
+        return run_in_fork(_trial_here, chk, list(prelude), sc, sig, timeout_s=RUN_WALL_CAP_S)
+    except RuntimeError:
+        return None
+
+
+def _shrink_loop(chk, cur, sig, prelude, t0, budget_s, trial):
     tried = 0
     improved = True
     while improved and time.time() - t0 < budget_s:
         improved = False
         for cand in chk.shrink(cur):
             tried += 1
-            if _fails_with(chk, cand, sig):
+            if trial(cand, prelude):
                 cur = cand
                 improved = True
                 break
             if time.time() - t0 > budget_s:
                 break
-    hit = _fails_with(chk, cur, sig)
+    return cur, tried
+
+
+def _worker_minimise(args):
+    (sc, sig, budget_s, prelude) = args
+    chk = _CHECK
+    faulthandler.dump_traceback_later(budget_s * 3 + RUN_WALL_CAP_S * 2, exit=True)
+    t0 = time.time()
+    tried = 0
+    prelude = list(prelude)
+
+    def forked(cand, pre):
+        return _fails_with(chk, cand, sig, pre)
+
+    def local(cand, pre):   # fast path: trials in this process (valid when no history is involved)
+        return _trial_here(chk, pre, cand, sig)
+
+    cur = sc
+    if _fails_with(chk, sc, sig):
+        prelude = []
+        # history-free violation: shrink with in-process trials, confirm the result in a fresh
+        # process; if the code under test keeps state between trials and misled the search,
+        # redo it with one fresh process per trial
+        cand, n = _shrink_loop(chk, sc, sig, prelude, t0, budget_s * 0.6, local)
+        tried += n
+        if _fails_with(chk, cand, sig):
+            cur = cand
+        else:
+            cur, n = _shrink_loop(chk, sc, sig, prelude, t0, budget_s, forked)
+            tried += n
+    else:
+        # needs process history: the runs that preceded it in its chunk
+        if not prelude or not _fails_with(chk, sc, sig, prelude):
+            faulthandler.cancel_dump_traceback_later()
+            return {"scenario": sc, "prelude": prelude, "confirmed": False, "tried": tried}
+        # minimise the history first: drop chunks of earlier runs, then single runs
+        improved = True
+        while improved and time.time() - t0 < budget_s:
+            improved = False
+            for cand in shrink_list(prelude):
+                tried += 1
+                if _fails_with(chk, sc, sig, cand):
+                    prelude = cand
+                    improved = True
+                    break
+                if time.time() - t0 > budget_s:
+                    break
+        cur, n = _shrink_loop(chk, sc, sig, prelude, t0, budget_s, forked)
+        tried += n
+        # shrink the history runs as well (they need not be violations themselves)
+        for i in range(len(prelude)):
+            improved = True
+            while improved and time.time() - t0 < budget_s:
+                improved = False
+                for cand in chk.shrink(prelude[i]):
+                    tried += 1
+                    if _fails_with(chk, cur, sig, prelude[:i] + [cand] + prelude[i + 1:]):
+                        prelude[i] = cand
+                        improved = True
+                        break
+                    if time.time() - t0 > budget_s:
+                        break
+    hit = _fails_with(chk, cur, sig, prelude)
     faulthandler.cancel_dump_traceback_later()
     if not hit:  # flaky under re-run: report unminimised, flagged
-        return {"scenario": sc, "confirmed": False, "tried": tried}
+        return {"scenario": sc, "prelude": list(args[3]), "confirmed": False, "tried": tried}
     v, res = hit
-    return _plain({"scenario": cur, "confirmed": True, "tried": tried, "violation": v,
+    return _plain({"scenario": cur, "prelude": prelude, "confirmed": True, "tried": tried, "violation": v,
                    "digest": res["digest"]})
 
 
@@ -289,13 +395,16 @@ def main(chk, argv=None):
         for sig in todo:
             first = min(by_sig[sig], key=lambda v: v["run_index"])
             jobs.append((first, sig))
-        mins = _minimise_all(chk, jobs, procs, tier.get("minimise_s", 40))
+        mins = _minimise_all(chk, jobs, procs, tier.get("minimise_s", 40), seed, a.tier)
         for (first, sig), m in zip(jobs, mins):
             v = m.get("violation") or {k: first[k] for k in ("oracle", "sig", "detail")}
             rp = {
                 "property": chk.PROP, "verif_seed": seed, "run_index": first["run_index"],
                 "run_seed": first["run_seed"], "tier": a.tier, "oracle": v["oracle"],
                 "sig": sig, "detail": v["detail"], "scenario": m["scenario"],
+                "prelude": m.get("prelude") or [],
+                "prelude_note": ("process history: these runs are executed first, in the same fresh process, "
+                                 "then 'scenario'; empty when the violation needs no earlier run"),
                 "minimised": m["confirmed"], "shrink_candidates_tried": m["tried"],
                 "digest": m.get("digest"), "occurrences_in_batch": len(by_sig[sig]),
                 "original_scenario": first["scenario"] if not m["confirmed"] else None,
@@ -389,7 +498,7 @@ def _batch(chk, seed, tier, runs, budget, procs, chunk, ndig, nsamples, start=0)
                 pending[f] = s
                 return True
 
-            for _ in range(procs * 2):
+            for _ in range(procs + max(2, procs // 4)):
                 if not submit():
                     break
             while pending:
@@ -423,20 +532,34 @@ def _batch(chk, seed, tier, runs, budget, procs, chunk, ndig, nsamples, start=0)
     return out
 
 
-def _minimise_all(chk, jobs, procs, budget_s):
+def _prelude_of(chk, seed, tier, first):
+    """Scenarios of the runs that preceded `first` in its worker process (its process history):
+    the chunks the worker had executed before, then the runs of its own chunk before it."""
+    if _self_forking(chk) or first.get("chunk_start") is None:
+        return []
+    idxs = []
+    for s0, c in first.get("worker_history") or []:
+        idxs += list(range(s0, s0 + c))
+    idxs += list(range(first["chunk_start"], first["run_index"]))
+    return [_plain(chk.gen(derive(seed, "run", i), tier)) for i in idxs]
+
+
+def _minimise_all(chk, jobs, procs, budget_s, seed, tier):
     res = []
     try:
         with _pool(min(procs, max(1, len(jobs)))) as ex:
-            futs = [ex.submit(_worker_minimise, (first["scenario"], sig, budget_s))
+            futs = [ex.submit(_worker_minimise, (first["scenario"], sig, budget_s,
+                                                 _prelude_of(chk, seed, tier, first)))
                     for first, sig in jobs]
             for f, (first, sig) in zip(futs, jobs):
                 try:
                     res.append(f.result())
                 except Exception:
-                    res.append({"scenario": first["scenario"], "confirmed": False, "tried": 0})
+                    res.append({"scenario": first["scenario"], "prelude": [], "confirmed": False, "tried": 0})
     except BrokenProcessPool:
         while len(res) < len(jobs):
-            res.append({"scenario": jobs[len(res)][0]["scenario"], "confirmed": False, "tried": 0})
+            res.append({"scenario": jobs[len(res)][0]["scenario"], "prelude": [], "confirmed": False,
+                        "tried": 0})
     return res
 
 
@@ -461,6 +584,11 @@ def _replay_fresh(chk, path, sig, dig):
 def _replay(chk, path):
     with open(path) as f:
         rp = json.load(f)
+    for p in rp.get("prelude") or []:
+        try:
+            chk.run(p)
+        except BaseException:  # noqa: BLE001 - history only
+            pass
     res = chk.run(rp["scenario"])
     hit = [v for v in res["violations"] if v["sig"] == rp["sig"]]
     if hit:
